@@ -2024,3 +2024,34 @@ def m_clone_into(eng, ctx, f, path, args, dty):
 
 
 FALLBACK.setdefault(r" as ToOwned>::clone_into$| as Clone>::clone_from$", m_clone_into)
+
+
+# ------------------------------------------------------------------------------------------------ f64 (IEEE semantics, z3 FP theory)
+def _fp(v):
+    return z3.fpBVToFP(v, z3.Float64() if v.size() == 64 else z3.Float32())
+
+
+def _f1(fn):
+    def h(eng, ctx, f, path, args, dty):
+        v = load(eng, ctx, args[0])
+        if not (z3.is_bv(v) and v.size() in (32, 64)):
+            raise Unsupported(f"float method on {v}")
+        r = fn(_fp(v))
+        return r if z3.is_bool(r) else eng.fp_result(ctx, r, v.size())
+    return h
+
+
+FLOATS = {
+    r"(^|::)f(32|64)::(.*::)?trunc$": _f1(lambda x: z3.fpRoundToIntegral(z3.RTZ(), x)),
+    r"(^|::)f(32|64)::(.*::)?floor$": _f1(lambda x: z3.fpRoundToIntegral(z3.RTN(), x)),
+    r"(^|::)f(32|64)::(.*::)?ceil$": _f1(lambda x: z3.fpRoundToIntegral(z3.RTP(), x)),
+    r"(^|::)f(32|64)::(.*::)?fract$": _f1(lambda x: z3.fpSub(z3.RNE(), x, z3.fpRoundToIntegral(z3.RTZ(), x))),
+    r"(^|::)f(32|64)::(.*::)?abs$": _f1(lambda x: z3.fpAbs(x)),
+    r"(^|::)f(32|64)::(.*::)?is_nan$": _f1(lambda x: z3.fpIsNaN(x)),
+    r"(^|::)f(32|64)::(.*::)?is_infinite$": _f1(lambda x: z3.fpIsInf(x)),
+    r"(^|::)f(32|64)::(.*::)?is_finite$": _f1(lambda x: z3.And(z3.Not(z3.fpIsNaN(x)), z3.Not(z3.fpIsInf(x)))),
+    r"(^|::)f(32|64)::(.*::)?is_sign_negative$": _f1(lambda x: z3.fpIsNegative(x)),
+    r"(^|::)f(32|64)::(.*::)?is_sign_positive$": _f1(lambda x: z3.fpIsPositive(x)),
+}
+for _k, _v in FLOATS.items():
+    FALLBACK.setdefault(_k, _v)
